@@ -61,6 +61,9 @@ pub enum Rep {
     /// noncontiguous NFA
     CB { dd: usize, bc: bool },
     DB { sk: Sk, bc: bool },
+    /// contiguous NFA (dense depth `dd`) built from a noncontiguous NFA with
+    /// ANOTHER dense depth `nn` (the two depths are independent options)
+    CX { nn: usize, dd: usize },
     /// the plain constructors `X::new(patterns)`: 0 AhoCorasick, 1 nNFA,
     /// 2 cNFA, 3 DFA (all defaults: standard semantics, no folding)
     New { which: u8 },
@@ -88,6 +91,7 @@ impl Cfg {
             Rep::C { dd, bc } => format!("cnfa:dd={}:bc={}:pre={}", dd, bc as u8, p),
             Rep::D { sk, bc } => format!("dfa:sk={}:bc={}:pre={}", sk.ch(), bc as u8, p),
             Rep::CB { dd, bc } => format!("cnfab:dd={}:bc={}:pre={}", dd, bc as u8, p),
+            Rep::CX { nn, dd } => format!("cnfax:nn={}:dd={}:pre={}", nn, dd, p),
             Rep::DB { sk, bc } => format!("dfab:sk={}:bc={}:pre={}", sk.ch(), bc as u8, p),
             Rep::New { which } => format!("new:which={}:pre={}", ["top", "nnfa", "cnfa", "dfa"][which as usize], p),
         }
@@ -125,6 +129,7 @@ impl Cfg {
             "cnfa" => Rep::C { dd: g("dd").parse().ok()?, bc: g("bc") == "1" },
             "dfa" => Rep::D { sk: Sk::from_ch(&g("sk")), bc: g("bc") == "1" },
             "cnfab" => Rep::CB { dd: g("dd").parse().ok()?, bc: g("bc") == "1" },
+            "cnfax" => Rep::CX { nn: g("nn").parse().ok()?, dd: g("dd").parse().ok()? },
             "dfab" => Rep::DB { sk: Sk::from_ch(&g("sk")), bc: g("bc") == "1" },
             "new" => Rep::New {
                 which: match g("which").as_str() {
@@ -171,6 +176,9 @@ pub fn low_reps() -> Vec<Rep> {
         }
     }
     v.push(Rep::CB { dd: 1, bc: true });
+    v.push(Rep::CB { dd: usize::MAX, bc: true });
+    v.push(Rep::CX { nn: 0, dd: 4 });
+    v.push(Rep::CX { nn: 3, dd: 8 });
     v.push(Rep::DB { sk: Sk::B, bc: true });
     for which in 1..4u8 {
         v.push(Rep::New { which });
@@ -263,6 +271,10 @@ fn build_inner(pats: &[Vec<u8>], kind: Kind, ci: bool, cfg: Cfg) -> Result<Searc
                     .build_from_noncontiguous(&n)
                     .map_err(e)?,
             ))
+        }
+        Rep::CX { nn, dd } => {
+            let n = build_nnfa(pats, kind, ci, cfg.pre, nn)?;
+            Ok(Searcher::C(nfa::contiguous::Builder::new().dense_depth(dd).build_from_noncontiguous(&n).map_err(e)?))
         }
         Rep::CB { dd, bc } => Ok(Searcher::C(
             nfa::contiguous::Builder::new()
